@@ -358,12 +358,22 @@ pub struct ReadmeDoctests;
 
 /// Lex PRQL source into Lexer Representation.
 pub fn prql_to_tokens(prql: &str) -> Result<lr::Tokens, ErrorMessages> {
-    prqlc_parser::lexer::lex_source(prql).map_err(|e| {
-        e.into_iter()
-            .map(|e| e.into())
-            .collect::<Vec<ErrorMessage>>()
-            .into()
-    })
+    // Lex the text as the only file of a source tree (as `prql_to_pl` does), so
+    // that the errors name that file and can be given a location and a display.
+    let sources = SourceTree::from(prql);
+    let source_id = sources.source_ids.keys().copied().min().unwrap_or(1);
+
+    let (tokens, errors) = prqlc_parser::lexer::lex_source_recovery(prql, source_id);
+    match tokens {
+        Some(tokens) if errors.is_empty() => Ok(lr::Tokens(tokens)),
+        _ => Err(ErrorMessages::from(
+            errors
+                .into_iter()
+                .map(ErrorMessage::from)
+                .collect::<Vec<ErrorMessage>>(),
+        )
+        .composed(&sources)),
+    }
 }
 
 /// Parse PRQL into a PL AST
